@@ -309,6 +309,55 @@ theorem C10_shared_once (calls : List Call) :
   have := shared_count {} calls
   simpa using this
 
+/-! ## several lifetimes in one process -/
+
+theorem after_stopped (s : Shared) (calls : List Call) :
+    (s.after calls).stopped = (s.stopped || decide (Call.stop ∈ calls)) ∧
+    (s.after calls).started = (s.started || decide (Call.start ∈ calls)) := by
+  induction calls generalizing s with
+  | nil => simp [Shared.after]
+  | cons c rest ih =>
+    obtain ⟨st, sp⟩ := s
+    have h := ih ((Shared.mk st sp).step c).1
+    simp only [Shared.after, List.foldl_cons] at h ⊢
+    cases c <;> cases st <;> cases sp <;> simp_all [Shared.step]
+
+/-- **lifetimes are independent**: services built, started and stopped one after the other in one process over a
+persistent `sharedcomponent.Map`.  Provided every lifetime either never touches the shared component (`service.New`
+failed before any call) or shuts its instances down (which `C10_exactly_once` guarantees for every service that was
+built — whatever failed in `Start` or `Shutdown`, and whatever the inner `Shutdown` returned), the inner component of
+every lifetime sees exactly what a fresh wrapper produces: `Start` once iff an instance is started, `Shutdown` once —
+independently of all earlier lifetimes and their outcomes.  And the model's outcome of each lifetime is `lifetime`
+of that lifetime's inputs alone. -/
+theorem C10_lifetimes_independent :
+    (∀ (callss : List (List Call)), (∀ calls, calls ∈ callss → calls = [] ∨ Call.stop ∈ calls) →
+      mapLifetimes none callss = callss.map (Shared.runCalls {})) ∧
+    (∀ (pre post : List LifetimeIn) (l : LifetimeIn),
+      (lifetimes (pre ++ l :: post))[pre.length]? = some (lifetime l.sys l.failS l.failT)) := by
+  constructor
+  · have key : ∀ (callss : List (List Call)) (entry : Option Shared), (entry = none ∨ entry = some {}) →
+        (∀ calls, calls ∈ callss → calls = [] ∨ Call.stop ∈ calls) →
+        mapLifetimes entry callss = callss.map (Shared.runCalls {}) := by
+      intro callss
+      induction callss with
+      | nil => intro _ _ _; rfl
+      | cons calls rest ih =>
+        intro entry he hall
+        have hsh : entry.getD {} = ({} : Shared) := by rcases he with rfl | rfl <;> rfl
+        simp only [mapLifetimes, mapLifetime, hsh, List.map_cons]
+        congr 1
+        apply ih
+        · rcases hall calls List.mem_cons_self with rfl | hstop
+          · right; simp [Shared.after]
+          · left
+            have := (after_stopped {} calls).1
+            simp [this, hstop]
+        · intro c hc; exact hall c (List.mem_cons_of_mem _ hc)
+    intro callss h
+    exact key callss none (Or.inl rfl) h
+  · intro pre post l
+    simp [lifetimes]
+
 /-! ## the monitor is sound -/
 
 /-- whatever log the monitor accepts (the implementation's, on every run) satisfies the ordering and
@@ -688,6 +737,11 @@ def exSys : Sys :=
 /-- the hypotheses of the theorems are met by this system -/
 example : exSys.Admissible :=
   ⟨isTopo_of_isTopoB (by decide), isTopo_of_isTopoB (by decide), isTopo_of_isTopoB (by decide)⟩
+
+/-- three lifetimes over one map: inner Shutdown happens in each, whatever the earlier lifetimes did; a lifetime whose
+`service.New` failed leaves the (unused) wrapper behind and the next one uses it -/
+example : mapLifetimes none [[.start, .start, .stop, .stop], [], [.start, .stop, .stop], [.stop]] =
+    [[.start, .stop], [], [.start, .stop], [.stop]] := by decide
 
 /-- the monitor accepts the model's own run, with a start failure at the connector and a stop failure at extension 1 -/
 example : check exSys (run exSys (fun c => c == Comp.node (Node.conn .traces .metrics 5)) (fun c => c == Comp.ext 1)) = true := by decide
